@@ -169,4 +169,10 @@ def r9_4(ctx):
     ctx.check(any(isinstance(x, ast.Assign) and norm(x.targets[0]) == "text" and norm(x.value) == "self.plain" for x in walk_local(f.node)), f.fq, "text = self.plain", f.where, "measured string is the plain text", "the measured string is not self.plain")
 
 
-RULES = [r9_1, r9_2, r9_3, r9_4]
+def r9_5(ctx):
+    from .c01 import r1_1
+    from .common import borrow
+    borrow(ctx, r1_1, "R1.1", "R9.5", " [needed for 'rendering at the reported maximum never exceeds it': a container whose measure is capped at W must also hand its child at most W when rendering]")
+
+
+RULES = [r9_1, r9_2, r9_3, r9_4, r9_5]
